@@ -11,7 +11,12 @@
 (* types whose description fits, TypesDisjoint says it never has two       *)
 (* members, and Classify(s) is its member (or "str").                      *)
 (*                                                                         *)
-(* A text is a sequence of one-character strings.  Numbers never become    *)
+(* A text is a sequence of characters: one-character strings for ASCII,    *)
+(* atoms named by their code point ("u0662", "u00A0", "uFF11") for the     *)
+(* rest.  The YAML 1.1 types are written in ASCII: a non-ASCII digit,      *)
+(* letter or space that merely looks like (or is classified by Unicode     *)
+(* like) a character of a type's description is not that character, so     *)
+(* every text that contains one is a str.  Numbers never become            *)
 (* TLC integers: int values are <<sign, Big>> with Big a decimal digit     *)
 (* sequence (module Decimal), float values are signed decimals             *)
 (* [s, m, e] = s m * 10^e (exactly the rational the text denotes;          *)
